@@ -222,6 +222,16 @@ def fam_pairs(ctx, rng):
         sa, sb = a.subdivide(d), b.subdivide(d)
         if len(sa) != len(sb):
             ctx.violation('%s:subdivide:count' % kind, 'subdivide(%r): %d vs %d points' % (d, len(sa), len(sb)), desc)
+        # a LIST of distances that is used up well before the end of the curve (the last entry is then repeated)
+        dl = [G.dy(a.length * rng.uniform(0.04, 0.12)) or 0.25, G.dy(a.length * rng.uniform(0.13, 0.22)) or 0.5]
+        if rng.random() < 0.5:
+            dl.append(G.dy(a.length * rng.uniform(0.05, 0.1)) or 0.125)
+        sa, sb = a.subdivide(list(dl)), b.subdivide(list(dl))
+        ctx.count('pair.%s' % kind, key=(fk, 'subdivide_list', len(dl)))
+        if len(sa) != len(sb):
+            ctx.violation('%s:subdivide:list:count' % kind, 'subdivide(%r): %d points in 2D, %d in 3D' % (dl, len(sa), len(sb)), dict(desc, distances=dl))
+        elif kind == 'segment' and not agree(to2(pl, sa), to2(pl, sb), scale):
+            ctx.violation('%s:subdivide:list:points' % kind, 'subdivide(%r) points differ between the siblings' % (dl,), dict(desc, distances=dl))
     if kind == 'segment':
         o2 = LineSegment2D(P2(G.rpt2(rng, 20)), V2(G.rvec2(rng, 10)))
         ia = a.intersect_line_ray(o2)
